@@ -1535,7 +1535,7 @@ def run(tier, seed, mutant=None, n_override=None):
     C.build_cli()
     C.build_rt()
     work = C.fresh_dir("C05")
-    n = n_override or (320 if tier == "quick" else 8000)
+    n = n_override or (320 if tier == "quick" else 4000)
     viol, inconc, sigs, samples = [], [], set(), []
     cnt = {"programs": 0, "use_sites": 0, "predicted_undefined": 0}
     evals = 0
